@@ -247,6 +247,19 @@ def job_row(i, j, tier, seed):
     return ck.export()
 
 
+def changed_rows():
+    """row indexes of the current tree whose handler IR closure differs from (or that have no counterpart in) the pinned reference"""
+    C, Rf = envs()
+    mr = match_rows(C, Rf)
+    hc, hr = Hasher(C), Hasher(Rf)
+    out = []
+    for r in C.rows:
+        j = mr[r['i']]
+        if j is None or hc.closure(row_roots(C, r))[0] != hr.closure(row_roots(Rf, Rf.rows[j]))[0]:
+            out.append(r['i'])
+    return out
+
+
 def run(tier, seed):
     ck = core.Check('C01', 'translation_validation', tier, seed)
     C, Rf = envs()
